@@ -70,7 +70,9 @@ class CostModels(DictCBORSerializable):
 
     def to_shallow_primitive(self) -> dict:
         result: dict[bytes, Union[typing.List[Any], bytes]] = {}
-        for language in sorted(self.keys()):
+        # Canonical (length-first) key order: language 0 is keyed by the two-byte string h'00' and
+        # therefore comes after the one-byte integer keys of the other languages.
+        for language in sorted(self.keys(), key=lambda k: (k == 0, k)):
             cost_model = self[language]
             if language == 0:
                 # Due to a bug in the Haskell implementation of ledger, we need to serialize the cost models twice.
